@@ -323,6 +323,122 @@ func c17Dump(o *Options, positional bool) string {
 	return sb.String()
 }
 
+// structural comparison without building strings (the dump is only produced to explain a difference)
+func c17Same(a, b reflect.Value, depth int) bool {
+	if a.Kind() != b.Kind() || depth > 10 {
+		return false
+	}
+	switch a.Kind() {
+	case reflect.Ptr, reflect.Interface:
+		if a.IsNil() || b.IsNil() {
+			return a.IsNil() == b.IsNil()
+		}
+		return c17Same(a.Elem(), b.Elem(), depth+1)
+	case reflect.Struct:
+		for i := 0; i < a.NumField(); i++ {
+			if !c17Same(a.Field(i), b.Field(i), depth+1) {
+				return false
+			}
+		}
+		return true
+	case reflect.Slice, reflect.Array:
+		if a.Len() != b.Len() {
+			return false
+		}
+		for i := 0; i < a.Len(); i++ {
+			if !c17Same(a.Index(i), b.Index(i), depth+1) {
+				return false
+			}
+		}
+		return true
+	case reflect.Map:
+		if a.Len() != b.Len() {
+			return false
+		}
+		it := a.MapRange()
+		for it.Next() {
+			bv := b.MapIndex(it.Key())
+			if !bv.IsValid() || !c17Same(it.Value(), bv, depth+1) {
+				return false
+			}
+		}
+		return true
+	case reflect.Func, reflect.Chan:
+		return a.IsNil() == b.IsNil()
+	case reflect.String:
+		return a.String() == b.String()
+	case reflect.Bool:
+		return a.Bool() == b.Bool()
+	case reflect.Int, reflect.Int8, reflect.Int16, reflect.Int32, reflect.Int64:
+		return a.Int() == b.Int()
+	case reflect.Uint, reflect.Uint8, reflect.Uint16, reflect.Uint32, reflect.Uint64, reflect.Uintptr:
+		return a.Uint() == b.Uint()
+	case reflect.Float32, reflect.Float64:
+		return a.Float() == b.Float()
+	}
+	return false
+}
+
+var c17Special = map[string]bool{"Printer": true, "WithNth": true, "AcceptNth": true, "Delimiter": true, "InfoPrefix": true, "Height": true, "Tmux": true}
+var c17Generic []int
+
+func c17SameOptions(x, y *Options, positional bool) bool {
+	a, b := reflect.ValueOf(x).Elem(), reflect.ValueOf(y).Elem()
+	if c17Generic == nil {
+		for i := 0; i < a.NumField(); i++ {
+			if !c17Special[a.Type().Field(i).Name] {
+				c17Generic = append(c17Generic, i)
+			}
+		}
+	}
+	for _, i := range c17Generic {
+		if !c17Same(a.Field(i), b.Field(i), 0) {
+			return false
+		}
+	}
+	hx, hy := x.Height, y.Height
+	if !positional {
+		hx.index, hy.index = 0, 0
+	}
+	if hx != hy {
+		return false
+	}
+	if (x.Tmux == nil) != (y.Tmux == nil) {
+		return false
+	}
+	if x.Tmux != nil {
+		tx, ty := *x.Tmux, *y.Tmux
+		if !positional {
+			tx.index, ty.index = 0, 0
+		}
+		if tx != ty {
+			return false
+		}
+	}
+	if (x.Delimiter.regex == nil) != (y.Delimiter.regex == nil) || (x.Delimiter.str == nil) != (y.Delimiter.str == nil) {
+		return false
+	}
+	if x.Delimiter.regex != nil && x.Delimiter.regex.String() != y.Delimiter.regex.String() {
+		return false
+	}
+	if x.Delimiter.str != nil && *x.Delimiter.str != *y.Delimiter.str {
+		return false
+	}
+	if (x.InfoStyle == infoInline || x.InfoStyle == infoInlineRight) && x.InfoPrefix != y.InfoPrefix {
+		return false
+	}
+	if c17Printed(x.Printer) != c17Printed(y.Printer) {
+		return false
+	}
+	if (x.WithNth != nil || y.WithNth != nil) && c17Nth(x.WithNth) != c17Nth(y.WithNth) {
+		return false
+	}
+	if (x.AcceptNth != nil || y.AcceptNth != nil) && c17Nth(x.AcceptNth) != c17Nth(y.AcceptNth) {
+		return false
+	}
+	return true
+}
+
 func c17FirstDiff(a, b string) string {
 	la, lb := strings.Split(a, "\n"), strings.Split(b, "\n")
 	for i := 0; i < len(la) || i < len(lb); i++ {
@@ -511,10 +627,12 @@ func c17Relate(r *kit.Run, relation, class string, argsA []string, envA, fileA *
 		r.Count("both_rejected")
 		return true
 	}
-	da, db := c17Dump(a.opts, positional), c17Dump(b.opts, positional)
-	if da != db {
+	if !c17SameOptions(a.opts, b.opts, positional) {
 		d := detail()
-		diff := c17FirstDiff(da, db)
+		diff := c17FirstDiff(c17Dump(a.opts, positional), c17Dump(b.opts, positional))
+		if diff == "" {
+			diff = "o.<difference not shown by the dump>"
+		}
 		d["first_difference"] = diff
 		r.Violation(class+":"+c17DiffField(diff), d)
 		return false
@@ -620,6 +738,21 @@ func c17Negation(names []string) map[string]string {
 	return out
 }
 
+// is v taken as the value of option nm when it follows it as a separate word? It is when that spelling is
+// accepted and means the same as the spelling that cannot be read otherwise (--name=v, or -nv glued)
+func c17Consumed(nm, v string) bool {
+	a := c17Parse([]string{nm, v}, nil, nil)
+	if !a.accepted() {
+		return false
+	}
+	glued := nm + v
+	if strings.HasPrefix(nm, "--") {
+		glued = nm + "=" + v
+	}
+	b := c17Parse([]string{glued}, nil, nil)
+	return b.accepted() && c17SameOptions(a.opts, b.opts, true)
+}
+
 func TestVerif_C17_lastwins(t *testing.T) {
 	r := kit.Start("C17", "last-wins")
 	if r == nil {
@@ -649,11 +782,15 @@ func TestVerif_C17_lastwins(t *testing.T) {
 			if nm == "--history" && v != "c17-history" && v != "abc" {
 				continue
 			}
-			if len(vals) < maxVals && c17Parse([]string{nm, v}, nil, nil).accepted() {
+			if len(vals) < maxVals && c17Consumed(nm, v) {
 				vals = append(vals, v)
 			}
 		}
 		bare := c17Parse([]string{nm}, nil, nil).accepted()
+		if len(vals) >= 2 {
+			r.Count("options_with_two_or_more_values")
+		}
+		r.CountN("option_values", len(vals))
 		_, cumulative := c17Cumulative[nm]
 		if cumulative {
 			r.Count("cumulative_options_skipped")
@@ -681,6 +818,23 @@ func TestVerif_C17_lastwins(t *testing.T) {
 			}
 			for _, v := range vals {
 				pos = append(pos, []string{nm, v})
+			}
+			// an option and its negation must be distinguishable by at least one spelling (otherwise one of the two
+			// does nothing); a single neutral value such as --height 0 proves nothing, so two spellings are required
+			if len(pos) >= 2 || bare {
+				b := c17Parse([]string{n}, nil, nil)
+				same := b.accepted()
+				for _, p := range pos {
+					a := c17Parse(p, nil, nil)
+					r.Evals(1)
+					if !(a.accepted() && b.accepted() && c17SameOptions(a.opts, b.opts, false)) {
+						same = false
+						break
+					}
+				}
+				if same {
+					r.Violation("negation-indistinguishable:"+n, map[string]any{"args": pos, "negation": []string{n}, "note": "all give the same configuration"})
+				}
 			}
 			for _, p := range pos {
 				c17Relate(r, "parse([o.. --no-o]) == parse([--no-o])", "negation:"+n, append(append([]string{}, p...), n), nil, nil, []string{n}, nil, false)
@@ -956,7 +1110,7 @@ func TestVerif_C17_bind_names(t *testing.T) {
 		if k.ev.Type == tui.Rune {
 			unit++
 			if r.Mine(unit) {
-				c17Contexts(r, "put-char", k, []c17Act{{name: "put", types: []actionType{actChar}}}, true)
+				c17Contexts(r, "put-char", k, []c17Act{{name: "put", types: []actionType{actChar}}}, false) // (the two-key context would bind f3, which cannot take put)
 			}
 		}
 	}
